@@ -167,5 +167,5 @@ PARTS = [
     Part("numpy", _mk(("numpy",), 3000, 30000, 40), oracle, n_quick=60, n_thorough=600),
     Part("cuda", _mk(("cuda",), 200, 600, 10), oracle, n_quick=8, n_thorough=60, env="cudasim"),
 ]
-QUOTAS = {"invariant:big-trend": {"quick": 200, "thorough": 4000}, "sensitive:change-visible": {"quick": 80, "thorough": 1500},
+QUOTAS = {"invariant:big-trend": {"quick": 120, "thorough": 3000}, "sensitive:change-visible": {"quick": 80, "thorough": 1500},
           "part:cuda": {"quick": 10, "thorough": 100}, "chan:y": {"quick": 50, "thorough": 1000}}
